@@ -601,7 +601,7 @@ class SparseArray:
     def nonzero_index(self):
         m = []; n = []
         for i, row in enumerate(self.rows):
-            for j in row.set:
+            for j in sorted(row.set):
                 m.append(i); n.append(j)
         return m, n
     nonzero = nonzero_index
